@@ -190,6 +190,15 @@ func body(sc *hn.Scenario) func() string {
 		if msg := sc.CheckStatus(o, endsGot, cancelled); msg != "" {
 			vrt.Fail("%s", msg)
 		}
+		// the Status a Send returned is the caller's: a later Send must not rewrite it
+		before := fmt.Sprint(o.Status.Complete(), o.Status.CompleteSinks(), o.Status.Warnings)
+		vrt.Quiet(func() {
+			o.Broker.Send(context.Background(), el.EventType(sc.SendType), "a later event")
+			o.Broker.Send(context.Background(), "some-other-type", "and one of another type")
+		})
+		if after := fmt.Sprint(o.Status.Complete(), o.Status.CompleteSinks(), o.Status.Warnings); after != before {
+			vrt.Fail("the Status returned by a Send changed when later Sends ran: was %s, is %s", before, after)
+		}
 		return o.Signature()
 	}
 }
